@@ -94,3 +94,13 @@ CONFIG = {
         "server would); the wire format (http.Request.Write / ReadRequest) is net/http's",
     ],
 }
+# statement-by-statement translation of small pure Go functions (tools/extract/trans.go -> lean/VGen/TransFedReq.lean) and the
+# theorems that the translated definitions equal the model's, for all inputs (lean/VProps/TransFedReq.lean)
+CONFIG["lean"] = list(CONFIG["lean"]) + ["VProps.TransFedReq"]
+CONFIG["sources"] = list(CONFIG["sources"]) + ['VProps/TransFedReq.lean', 'VModel/GoSem.lean']
+CONFIG["theorems"] = list(CONFIG["theorems"]) + ['V.Trans.FedReq.isSafeInHTTPQuotedString_eq_model', 'V.Trans.FedReq.isSafeInHTTPQuotedString_iff_qdtext']
+CONFIG["trusted"] = list(CONFIG["trusted"]) + ["tools/extract/trans.go: the Go-to-Lean translation of the whitelisted functions and the Go semantics of lean/VModel/GoSem.lean (DESIGN.md §14)"]
+# C12's translated-function theorems (WasValidAt) come in through _C12.CONFIG["theorems"]
+CONFIG["lean"] = list(CONFIG["lean"]) + ["VProps.TransKeys"]
+CONFIG["sources"] = list(CONFIG["sources"]) + ["VProps/TransKeys.lean"]
+CONFIG["theorems"] = list(dict.fromkeys(CONFIG["theorems"]))
